@@ -708,3 +708,38 @@ func EIA1Operands(ik [16]byte, count uint32, bearer, dir uint32) (p, q uint64) {
 	z := Snow3GKeystream(keyWords(ik), iv, 4)
 	return uint64(z[0])<<32 | uint64(z[1]), uint64(z[2])<<32 | uint64(z[3])
 }
+
+// ZucFoldEvents returns the clocks (1..32 initialisation rounds, 33.. work-mode clocks, the discarded first one
+// included) at which the integer sum S of the LFSR feedback terms is such that ONE fold (S mod 2^31) + (S div 2^31)
+// is still not below 2^31-1 — an implementation that sums in a wide integer and folds once leaves an unreduced cell
+// exactly there (about one clock in 2^30).
+func ZucFoldEvents(k, iv []byte, workClocks int) []int {
+	z := &Zuc{}
+	for i := 0; i < 16; i++ {
+		z.S[i] = uint32(k[i])<<23 | ZucD[i]<<8 | uint32(iv[i])
+	}
+	const p = uint64(0x7FFFFFFF)
+	var out []int
+	sum := func(u uint32, init bool) uint64 {
+		s := uint64(z.S[0]) + uint64(rot31(z.S[0], 8)) + uint64(rot31(z.S[4], 20)) + uint64(rot31(z.S[10], 21)) + uint64(rot31(z.S[13], 17)) + uint64(rot31(z.S[15], 15))
+		if init {
+			s += uint64(u)
+		}
+		return s
+	}
+	for i := 1; i <= 32+workClocks; i++ {
+		z.br()
+		w := z.f()
+		init := i <= 32
+		s := sum(w>>1, init)
+		if (s&p)+(s>>31) >= p {
+			out = append(out, i)
+		}
+		if init {
+			z.lfsr(w>>1, true)
+		} else {
+			z.lfsr(0, false)
+		}
+	}
+	return out
+}
